@@ -375,6 +375,17 @@ func hasherScenario() *explore.Scenario {
 					vs.Fail("sha256-differs-within-limit", "limit %d: payloads of length %d differing at position %d (within the limit) have the same SHA-256 key", limit, length, pos)
 				}
 			}
+			// (3) the key is a function of the payload's bytes, not of the buffer it lives in: the same bytes cut out of
+			// a larger buffer (spare capacity filled with other data, e.g. a frame of a read buffer) give the same key
+			for _, junk := range []byte{'x', 0} {
+				buf := bytes.Repeat([]byte{junk}, 256)
+				copy(buf, base)
+				framed := buf[:length]
+				n++
+				if key(sha, base) != key(sha, framed) || key(adler, base) != key(adler, framed) {
+					vs.Fail("key-of-bytes-only", "limit %d: a payload of length %d and the same bytes inside a 256-byte buffer (capacity %d) have different keys", limit, length, cap(framed))
+				}
+			}
 			if int64(length) < eff && length > 0 {
 				n++
 				if key(sha, base) == key(sha, base[:length-1]) {
